@@ -220,7 +220,7 @@ def check_source(ctx, src, tag, cli_dir=None):
         regions, _ = carts.random_regions(ctx.rng, 'sparse')
         p1 = os.path.join(cli_dir, ambient.BASE[0] + '.p8')
         with open(p1, 'wb') as fh:
-            fh.write(rc.write_p8(regions, src, version=ambient.VERSION[0]))
+            fh.write(rc.write_p8_variant(ctx.rng, regions, src, version=ambient.VERSION[0]))
         want = src if src.endswith(b'\n') else src + b'\n'
         try:
             rcode = tool.main([ambient.vflag(), 'writep8', p1])
